@@ -59,6 +59,11 @@ namespace trompeloeil {
     noexcept;
 
     void
+    add_retired(
+      sequence_matcher *m)
+    noexcept;
+
+    void
     validate_match(
       severity s,
       sequence_matcher const *matcher,
@@ -69,6 +74,7 @@ namespace trompeloeil {
 
   private:
     list<sequence_matcher> matchers{};
+    list<sequence_matcher> retired{};
   };
 
   class sequence
@@ -95,10 +101,10 @@ namespace trompeloeil {
       , exp_name(exp)
       , exp_loc(loc)
       , sequence_handler(handler)
-      , seq(*i.second)
+      , seq(&*i.second)
     {
       auto lock = get_lock();
-      seq.add_last(this);
+      seq->add_last(this);
     }
 
     sequence_matcher(const sequence_matcher&) = delete;
@@ -112,7 +118,20 @@ namespace trompeloeil {
       location loc)
     const
     {
-      seq.validate_match(s, this, seq_name, match_name, loc);
+      if (seq)
+      {
+        seq->validate_match(s, this, seq_name, match_name, loc);
+      }
+      else if (is_retired)
+      {
+        std::ostringstream os;
+        os << "Sequence mismatch for sequence \"" << seq_name
+           << "\" with matching call of " << match_name
+           << " at " << loc
+           << ". Sequence \"" << seq_name
+           << "\" has been destroyed\n";
+        send_report<specialized>(s, loc, os.str());
+      }
     }
 
     unsigned
@@ -120,7 +139,13 @@ namespace trompeloeil {
     const
     noexcept
     {
-      return seq.cost(this);
+      if (!seq)
+      {
+        // the sequence object is gone; what it had retired stays retired,
+        // what was still pending is no longer constrained by it
+        return is_retired ? ~0U : 0U;
+      }
+      return seq->cost(this);
     }
 
     bool
@@ -138,13 +163,29 @@ namespace trompeloeil {
     noexcept
     {
       this->unlink();
+      is_retired = true;
+      if (seq)
+      {
+        seq->add_retired(this);
+      }
     }
 
     void
     retire_predecessors()
     noexcept
     {
-      seq.retire_until(this);
+      if (seq)
+      {
+        seq->retire_until(this);
+      }
+    }
+
+    void
+    sequence_destroyed()
+    noexcept
+    {
+      this->unlink();
+      seq = nullptr;
     }
 
     void
@@ -166,7 +207,8 @@ namespace trompeloeil {
     char const *exp_name;
     location    exp_loc;
     const sequence_handler_base& sequence_handler;
-    sequence_type& seq;
+    sequence_type* seq;
+    bool is_retired = false;
   };
 
   inline
@@ -300,7 +342,11 @@ namespace trompeloeil {
       }
       os << "\n  missing ";
       m->print_expectation(os);
-      m->unlink();
+      m->sequence_destroyed();
+    }
+    while (!retired.empty())
+    {
+      retired.begin()->sequence_destroyed();
     }
     if (touched)
     {
@@ -316,6 +362,15 @@ namespace trompeloeil {
   noexcept
   {
     matchers.push_back(m);
+  }
+
+  inline
+  void
+  sequence_type::add_retired(
+    sequence_matcher *m)
+  noexcept
+  {
+    retired.push_back(m);
   }
 
   inline
